@@ -20,6 +20,7 @@ import (
 	"errors"
 	"fmt"
 	"log"
+	"math"
 	"os"
 	"reflect"
 	"time"
@@ -502,7 +503,12 @@ var MaxDepth = 10000
 
 // checkPlain verifies that the given value (what a script returned or
 // emitted) is a finite tree: maps and arrays that do not contain
-// themselves and that are not nested deeper than MaxDepth.
+// themselves and that are not nested deeper than MaxDepth, with
+// numbers that are finite.
+//
+// NaN and the infinities are numbers for a script ('0/0') but they are
+// not JSON: a state with such a number cannot be written out, and a
+// crew can neither report nor store it.
 //
 // A script can easily build a value that is not ('var c = {}; c.self =
 // c'), and recursive consumers of the state (the pattern matcher, the
@@ -547,6 +553,11 @@ func checkPlain(x interface{}) error {
 				}
 				return nil
 			}
+		case float64:
+			if math.IsNaN(vv) || math.IsInf(vv, 0) {
+				return errors.New("value has a number that is not finite")
+			}
+			return nil
 		default:
 			return nil
 		}
